@@ -35,7 +35,7 @@ ASSUMPTIONS = [
     "a default array with non-negative entries may coincide with a molecule label; such coincidences are counted but not judged (statement ambiguous)",
     "whether search_molecules may write into the caller's default array is not judged",
 ]
-REQUIRED = {"reinsert_after_isotope_substitution": 30, "reinsert_checked": 500, "reinsert_unsorted": 100, "search_checked": 300, "search_with_default_array": 60, "search_bonded": 100, "search_filtered_out": 50}
+REQUIRED = {"search_dict_keys_by_atomic_number": 20, "reinsert_after_isotope_substitution": 30, "reinsert_checked": 500, "reinsert_unsorted": 100, "search_checked": 300, "search_with_default_array": 60, "search_bonded": 100, "search_filtered_out": 50}
 SHARD_TIMEOUT = {"quick": 600, "thorough": 2400}
 
 
@@ -179,6 +179,11 @@ def pair_matrix(atoms, cutoff):
         cmax = 2 * max(cutoff)
     else:
         cmax = cutoff
+    sym_cut = {}
+    if isinstance(cutoff, dict):
+        from ase.data import chemical_symbols as _S
+
+        sym_cut = {tuple(k if isinstance(k, str) else _S[int(k)] for k in key): v for key, v in cutoff.items()}
     shifts = [np.zeros(3)]
     if pbc.any():
         recip = np.linalg.inv(cell).T  # rows: reciprocal vectors / 2pi
@@ -192,7 +197,7 @@ def pair_matrix(atoms, cutoff):
         for j in range(i + 1, n):
             d = np.linalg.norm(pos[j] - pos[i] + shifts, axis=1).min()
             if isinstance(cutoff, dict):
-                c = cutoff.get((syms[i], syms[j]), cutoff.get((syms[j], syms[i]), None))
+                c = sym_cut.get((syms[i], syms[j]), sym_cut.get((syms[j], syms[i]), None))
                 if c is None:
                     continue
             elif isinstance(cutoff, (list, tuple, np.ndarray)):
@@ -258,6 +263,17 @@ def run_search(spec, rec):
                         cutoff[(a, b)] = float(rng.uniform(0.9, 2.4))
             if not cutoff:
                 cutoff[(present[0], present[0])] = 1.5
+            if rng.random() < 0.4:
+                # species named the other way ASE accepts them: atomic numbers (Python or numpy integers), for all or
+                # for some of the keys
+                from ase.data import atomic_numbers as _Z
+
+                def _num(sym):
+                    z = _Z[sym]
+                    return np.int64(z) if rng.random() < 0.5 else int(z)
+
+                cutoff = {((_num(a) if rng.random() < 0.7 else a), (_num(b) if rng.random() < 0.7 else b)): v for (a, b), v in cutoff.items()}
+                rec.count("search_dict_keys_by_atomic_number")
         else:
             cutoff = [float(x) for x in rng.uniform(0.4, 1.2, n)]
         fk = rng.choice(["none", "int", "tuple"])
